@@ -3,7 +3,7 @@ import re
 import string
 import logging
 from bisect import bisect
-from ast import Name as AstName, Attribute, Call, FunctionDef, ClassDef, Lambda
+from ast import Name as AstName, Attribute, Call, FunctionDef, ClassDef, Lambda, List, Tuple, Constant, walk
 
 try:
     from ast import AsyncFunctionDef
@@ -384,11 +384,48 @@ class SourceScope(Scope):
             except ImportError:
                 continue
 
-            for name in iterkeys(module._attrs):
-                if not name.startswith('_'):
-                    flow.add_name(ImportedName(name, loc, declared_at, mname, name, True))
+            names = star_names(module)
+            if names is None:
+                names = [n for n in iterkeys(module._attrs) if not n.startswith('_')]
+            for name in names:
+                flow.add_name(ImportedName(name, loc, declared_at, mname, name, True))
 
         self._star_imports[:] = []
+
+
+def star_names(module):
+    # type: (t.Any) -> list[str] | None
+    """What `from module import *` binds when the module says so itself
+
+    __all__ of a loaded module; of a source module when it is assigned once,
+    a plain list or tuple of strings, and not touched otherwise. None: all
+    public names."""
+    scope = getattr(module, 'scope', None)
+    if scope is None:
+        value = getattr(getattr(module, 'module', None), '__all__', None)
+        if isinstance(value, (list, tuple)) and all(isinstance(n, str) for n in value):
+            return list(value)
+        return None
+
+    uses = [n for n in walk(scope.source.tree)
+            if isinstance(n, AstName) and n.id == '__all__']
+    name = scope.names.get('__all__')
+    node = getattr(name, 'value_node', None)
+    if (len(uses) == 1 and isinstance(node, (List, Tuple))
+            and all(isinstance(e, Constant) and isinstance(e.value, str) for e in node.elts)):
+        return [e.value for e in node.elts]
+
+    if uses:
+        # built step by step (os, typing): take it from the module itself
+        # when this very file happens to be loaded here
+        import sys
+        loaded = sys.modules.get(getattr(module, 'name', None))
+        value = getattr(loaded, '__all__', None)
+        if (getattr(loaded, '__file__', None) == module.filename
+                and isinstance(value, (list, tuple))
+                and all(isinstance(n, str) for n in value)):
+            return list(value)
+    return None
 
 
 def get_first_body_node_loc(body):
